@@ -71,15 +71,16 @@ example :
     the Rust source on every run.  Today: the asm-instruction splitter (line breaks inside asm blocks, excluded by
     the property), the multi-line string re-indenter (terminator to write), the end-of-file rule (a write), the
     wrapper's blank-line clamp and its write of the chosen breaks, and `max_one_either_side` ("on another line"
-    counts as one space).  A new site - e.g. a consolidator or a spacing rule that looks at whether a gap holds a
-    line break - breaks this obligation even before any input is run. -/
+    counts as one space).  The inventory is kept per file (a read moved into a helper of the same file is a refactoring: control R03).  A
+    read in a file that has none today - e.g. a consolidator, a context of the wrapper or another rule that looks at
+    whether a gap holds a line break - breaks this obligation even before any input is run; a new read inside one of
+    the files listed is the business of the `pfull`, `wsearch`, `full` and `full2` correspondences. -/
 theorem layout_is_read_only_at_known_sites :
-    layoutReads = ["get_leading_whitespace@core/src/defaults/parser.rs:parse_asm_instructions",
-      "get_newline_str@core/src/rules/optimising_line_formatter/multiline_strings.rs:try_rewrite_string",
-      "newlines_before@core/src/rules/eof_newline.rs:format",
-      "newlines_before@core/src/rules/optimising_line_formatter/mod.rs:format",
-      "newlines_before@core/src/rules/optimising_line_formatter/mod.rs:reconstruct_solution",
-      "newlines_before@core/src/rules/token_spacing.rs:max_one_either_side"] := rfl
+    layoutReads = ["get_leading_whitespace@core/src/defaults/parser.rs",
+      "get_newline_str@core/src/rules/optimising_line_formatter/multiline_strings.rs",
+      "newlines_before@core/src/rules/eof_newline.rs",
+      "newlines_before@core/src/rules/optimising_line_formatter/mod.rs",
+      "newlines_before@core/src/rules/token_spacing.rs"] := rfl
 
 /-- **The parse does not depend on where the lines break outside assembler code** — for the exact model of the
     parser (control flow included) and the three consolidators: the line-break flags are read by
